@@ -182,7 +182,11 @@ def replay_edges(g, jobs):
             o, exc, view = sess.step(name, args)
             obs = sess.observe()
             best = None
-            for d in dsts:
+            hl = _fmap(st['hlen'])
+            was_stale = hl[args[0]] != st['dlen'] or st['dlen'] != len(st['rows'])
+            if was_stale and o != 'ok' and obs['rows'] == tuple(st['rows']) and obs['dlen'] == st['dlen'] and not obs['tail']:
+                best = []       # refusing to work through an out-of-date handle, changing nothing, is fine too
+            for d in ([] if best == [] else dsts):
                 mm = mismatches(g.nodes[d], obs, o, view)
                 if best is None or len(mm) < len(best):
                     best = mm
